@@ -67,31 +67,28 @@ def run(ctx):
     # ---- R13.1 bracketing
     it = interp(True)
     r = T.to_term(it.call_function(fg, [xp, x, False, None], {}, None))
-    ok = fname(r) == "clip" and r.args[1] == 0 and sp.expand(r.args[2] - (op("len", xp) - 1)) == 0 and fname(r.args[0]) == "tabulate"
+    br = bracket_rows(r.args[0]) if fname(r) == "clip" and len(r.args) == 3 else None
+    ok = br is not None and r.args[1] == 0 and sp.expand(r.args[2] - (op("len", xp) - 1)) == 0
     if not ok:
         ctx.bad("R13.1", "enclosing_points_1d[clip]", "indices are not clipped to [0, n-1]", fg.loc(), derived=T.show(r, 300))
     else:
         ctx.ok("R13.1", "enclosing_points_1d[clip]", "indices clipped to [0, len(xp) - 1]", fg.loc())
-        tab = r.args[0]
-        lv = tab.args[3]
-        pat, val = tab.args[1], tab.args[2]
-        ss = op("searchsorted", xp, op("item", x, lv), Str("right"))
-        okp = pat == sp.Tuple(op("slc", NONE_T, NONE_T, NONE_T), lv)
-        okv = isinstance(val, sp.Tuple) and len(val.args) == 2 and sp.expand(val.args[0] - (ss - 1)) == 0 and val.args[1] == ss
-        ctx.expect(okp and okv, "R13.1", "enclosing_points_1d[bracket]",
-                   "column j holds (i-1, i) with i = searchsorted(xp, x[j], side='right')", fg.loc(), derived=val,
+        lo, hi, lv = br
+        ss = op("searchsorted", xp, op("item", x, lv) if lv is not None else x, Str("right"))
+        okv = sp.expand(lo - (ss - 1)) == 0 and hi == ss
+        ctx.expect(okv, "R13.1", "enclosing_points_1d[bracket]",
+                   "column j holds (i-1, i) with i = searchsorted(xp, x[j], side='right')", fg.loc(), derived=sp.Tuple(lo, hi),
                    required=sp.Tuple(ss - 1, ss))
     # descending transform, sibling consistency
     itd = interp(False)
     rd = T.to_term(itd.call_function(fg, [xp, x, False, None], {}, None))
     xp0 = op("item", xp, sp.Integer(0))
-    ssd = op("searchsorted", xp0 - xp, op("item", xp0 - x, sp.Symbol("j")), Str("right"))
-    tabs = T.find_ops(rd, "tabulate")
+    brd = bracket_rows(rd.args[0]) if fname(rd) == "clip" and len(rd.args) == 3 else None
     okd = False
-    if tabs:
-        lvd = tabs[0].args[3]
-        vd = tabs[0].args[2]
-        okd = isinstance(vd, sp.Tuple) and vd.args[1] == ssd.xreplace({sp.Symbol("j"): lvd})
+    if brd is not None:
+        lo, hi, lvd = brd
+        ssd = op("searchsorted", xp0 - xp, op("item", xp0 - x, lvd) if lvd is not None else xp0 - x, Str("right"))
+        okd = hi == ssd
     ctx.expect(okd, "R13.1", "enclosing_points_1d[descending grid]",
                "a descending grid is mapped to (xp0 - x, xp0 - xp) before searching", fg.loc(), derived=T.show(rd, 300))
 
@@ -195,7 +192,9 @@ def run(ctx):
     else:
         ctx.unsure("R13.3", "_data_interpolator[corner mask]", "mask assignment not found", di.loc())
     tw, tv = roles.get("aug_w"), roles.get("aug_v")
-    flat = lambda e: ast.unparse(e).replace("\n", "").replace(" ", "")  # noqa: E731
+    from .fc import substitute_defs as _sd
+    stop_ = {roles.get("idx", "?"), roles.get("w", "?"), roles.get("val", "?"), roles.get("mask", "?"), "self"}
+    flat = lambda e: ast.unparse(_sd(di.node, e, stop_)).replace("\n", "").replace(" ", "")  # noqa: E731
     wsel = f"{roles.get('w')}[self.output_indexing_broadcast({roles.get('mask')})]"
     full = f"self.output_indexing_full({roles.get('mask')})"
     okw = tw is not None and flat(tw.value) == wsel and full in flat(tw.target)
@@ -416,28 +415,56 @@ def run(ctx):
 
 def _interpolator_roles(di):
     """names of the locals of a corner-sum interpolator, found by what they hold: the corner loop's (indices, weight)
-    targets, the data fetched at the corner, the mask built from it, and the two accumulators"""
+    targets, the two accumulators (`acc[...] += w[...] * v[...]` and `wsum[...] += w[...]`), the per-corner value v and the
+    mask that selects the contributing corners.  Index expressions may go through intermediate locals."""
+    from .fc import substitute_defs
     roles = {}
     lp = [n for n in ast.walk(di.node) if isinstance(n, ast.For) and "_next_point" in ast.unparse(n.iter)]
     if len(lp) == 1 and isinstance(lp[0].target, ast.Tuple) and len(lp[0].target.elts) == 2 and all(
             isinstance(e, ast.Name) for e in lp[0].target.elts):
         roles["idx"], roles["w"] = lp[0].target.elts[0].id, lp[0].target.elts[1].id
-    for n in ast.walk(di.node):
-        if isinstance(n, ast.Assign) and len(n.targets) == 1 and isinstance(n.targets[0], ast.Name):
-            if any(isinstance(c, ast.Call) and ast.unparse(c.func) == "self.get_data" for c in ast.walk(n.value)):
-                roles["val"] = n.targets[0].id
-                roles["val_assign"] = n
-    for n in ast.walk(di.node):
-        if isinstance(n, ast.Assign) and len(n.targets) == 1 and isinstance(n.targets[0], ast.Name) and roles.get("val"):
-            if any(isinstance(c, ast.Call) and ast.unparse(c.func).endswith("isnan") and c.args and ast.unparse(c.args[0]) == roles["val"]
-                   for c in ast.walk(n.value)):
-                roles["mask"] = n.targets[0].id
+    stop = {roles.get("idx", "?"), roles.get("w", "?"), "self"}
     augs = [n for n in ast.walk(di.node) if isinstance(n, ast.AugAssign) and isinstance(n.op, ast.Add) and isinstance(n.target, ast.Subscript)
             and isinstance(n.target.value, ast.Name)]
-    for a in augs:
-        uses_val = roles.get("val") and any(isinstance(x, ast.Name) and x.id == roles["val"] for x in ast.walk(a.value))
-        if uses_val and "aug_v" not in roles:
-            roles["aug_v"], roles["acc"] = a, a.target.value.id
-        elif not uses_val and "aug_w" not in roles:
-            roles["aug_w"], roles["wsum"] = a, a.target.value.id
+    for a_ in augs:
+        v = a_.value
+        if isinstance(v, ast.BinOp) and isinstance(v.op, ast.Mult) and "aug_v" not in roles:
+            roles["aug_v"], roles["acc"] = a_, a_.target.value.id
+            for side in (v.left, v.right):
+                if isinstance(side, ast.Subscript) and isinstance(side.value, ast.Name) and side.value.id != roles.get("w"):
+                    roles["val"] = side.value.id
+        elif isinstance(v, ast.Subscript) and "aug_w" not in roles:
+            roles["aug_w"], roles["wsum"] = a_, a_.target.value.id
+    # the mask: the single local inside self.output_indexing_full(<mask>) once index locals are substituted
+    if "aug_w" in roles:
+        for depth in (0, 1, 2, 3):
+            full = substitute_defs(di.node, roles["aug_w"].target.slice, stop, depth=depth)
+            names = [c.args[0].id for c in ast.walk(full) if isinstance(c, ast.Call) and ast.unparse(c.func) == "self.output_indexing_full"
+                     and c.args and isinstance(c.args[0], ast.Name)]
+            if len(set(names)) == 1:
+                roles["mask"] = names[0]
+                break
+    for n in ast.walk(di.node):
+        if isinstance(n, ast.Assign) and len(n.targets) == 1 and isinstance(n.targets[0], ast.Name) and n.targets[0].id == roles.get("val"):
+            roles["val_assign"] = n
     return roles
+
+
+def bracket_rows(t):
+    """(row0, row1, element) of the (2, n) index array built by enclosing_points_1d, for either construction:
+    a per-target loop storing the column [i-1, i] (element = the loop variable, rows are per-element terms), or two whole-row
+    stores of vectorised searches (element = None, rows are array terms).  None when neither shape is present."""
+    if fname(t) == "tabulate":
+        pat, val, lv = t.args[1], t.args[2], t.args[3]
+        if pat == sp.Tuple(op("slc", NONE_T, NONE_T, NONE_T), lv) and isinstance(val, sp.Tuple) and len(val.args) == 2:
+            return val.args[0], val.args[1], lv
+        return None
+    if fname(t) == "store":
+        base, chain = store_chain(t)
+        rows = {}
+        for i, v in chain:
+            if isinstance(i, sp.Tuple) and len(i.args) == 2 and i.args[1] == op("slc", NONE_T, NONE_T, NONE_T) and i.args[0].is_Integer:
+                rows[int(i.args[0])] = v
+        if set(rows) == {0, 1}:
+            return rows[0], rows[1], None
+    return None
